@@ -1,11 +1,11 @@
 """Free-text parts of MANIFEST.json."""
 HOOK_COMMITS = ["c7c6a9f"]
-FIX_COMMITS = ["e44ed8e", "9e8cd65", "2f294a3", "7529dc9", "48b06b7", "21a1bed", "47b50c4", "35f944d"]
+FIX_COMMITS = ["e44ed8e", "9e8cd65", "2f294a3", "7529dc9", "48b06b7", "21a1bed", "47b50c4", "35f944d", "ba91c90", "3824d43"]
 NOTES = ("Runtime monitoring only: every check executes the real code of /repo under seeded workloads and decides with an oracle "
          "over what was observed. VERIF_SEED changes every random choice; VERIF_TIER overrides the tier. Exit 2 = build/harness failure "
          "(never a VIOLATION line). Known findings: /verif/known_findings.json. See DESIGN.md.")
 ENGINES = [
-    {"name": "vmux", "path": "harness/mux", "serves_properties": ["C02", "C03", "C04", "C05", "C06", "C07", "C08", "C09", "C11", "C15", "C16", "C18", "C20"],
+    {"name": "vmux", "path": "harness/mux", "serves_properties": ["C02", "C03", "C04", "C05", "C06", "C07", "C08", "C09", "C10", "C11", "C12", "C13", "C15", "C16", "C18", "C20"],
      "kind_free_text": "Rust harness over penguin-mux/cow-bytes/penguin-socks: PURE differential monitors, SIM (tokio current-thread, paused clock, in-memory WebSocket with wire tap and fault plan), THR, MICRO, Miri"},
 ]
 NOT_APPLICABLE = {}
@@ -104,5 +104,26 @@ TEXT = {
         "design_ref": "DESIGN.md §4 C16, appendix A",
         "level_text": "All (I,T) pairs of the grid x 6 pong-script kinds are executed in virtual time against a scripted raw peer; Ping times must be exactly k*I, a timeout needs >= T' of silence and must come within T'+I of the last pong for a silent peer, answered-in-time and disabled runs reach a 2000-interval horizon, and after the timeout every pending operation resolves.",
         "level_note": "Virtual time makes the bounds exact; delays inside the grid cells are seeded samples.",
+    },
+    "C10": {
+        "engine": "vmux (SIM)",
+        "technique": "fault enumeration of peer frame sequences (bounded-exhaustive over opcode x target, random beyond) against the real endpoint; reply-rule oracle, bystander integrity, liveness probe",
+        "design_ref": "DESIGN.md §4 C10, appendix A",
+        "level_text": "Every sequence up to length 2 (quick) / 3 (thorough) over 9 opcodes x 7 targets is sent by a scripted raw peer to a real endpoint holding flows in every state; replies are compared with the rules PROTOCOL.md fixes, the bystander stream must stay intact and complete, a liveness probe must pass, the task must neither return nor panic; invalid messages must end the connection with InvalidFrame and resolve everything pending.",
+        "level_note": "Only replies the statement/PROTOCOL.md fix are asserted; the endpoint's slot model assumes the harness application's behaviour (hold / drop at EOF).",
+    },
+    "C12": {
+        "engine": "vmux (MICRO, Miri in thorough)",
+        "technique": "runtime monitor over hook-level interleavings: turn-taking scheduler enumerates every total order of hook events on real threads; Miri (UB / data-race / weak-memory interpreter) on a sample",
+        "design_ref": "DESIGN.md §4 C12, appendix A",
+        "level_text": "All total orders of the hook events of 1-2 writer polls against acknowledge and/or close on other threads are executed for real (30 configurations, depth-first by replay) and judged by the final-state oracle W1-W4 (conservation, no lost wake-up, fail after close, frame only with credit). Exhaustive at hook granularity in the thorough tier; exploration below that granularity.",
+        "level_note": "Interleavings between hook points and non-x86 memory-model behaviours are only sampled (Miri, repeated native runs).",
+    },
+    "C13": {
+        "engine": "vmux (SIM)",
+        "technique": "runtime monitor of the real bridge future over a scripted local stream and a real endpoint pair; position-addressed data, credit monitor, outcome and promptness oracle in virtual time",
+        "design_ref": "DESIGN.md §4 C13, appendix A",
+        "level_text": "Each execution drives into_copy_bidirectional_with_buf with a seeded script of chunk sizes, Pending points (woken / never woken), partial writes, EOF and error positions on read/write/flush/shutdown, against a far application that finishes, aborts or starves; bytes, counts, half-close propagation, credit use and prompt error completion are checked.",
+        "level_note": "Promptness is decided by quiescence in virtual time, not by wall clock.",
     },
 }
